@@ -1120,7 +1120,7 @@ pub fn run(opts: &Opts) {
         "resolve" => 1500,
         _ => 4000,
     };
-    let cases = base * opts.scale * if opts.thorough() { 12 } else { 1 };
+    let cases = base * opts.scale * if opts.thorough() { if stream == "resolve" { 3 } else { 12 } } else { 1 };
     for _ in 0..cases {
         let lines = match stream.as_str() {
             "time" => gen_time(&mut rng),
